@@ -397,7 +397,8 @@ static void DecodeCBEQ(Word Index) {
     } else if (ArgCnt == 3) {
         OK = True;
         if (!as_strcasecmp(ArgStr[2].str.p_str, "X+")) {
-            Disp = 3;
+            /* ",X+" without an offset is the IX+ form (71 rr), not IX1+ with offset 0 */
+            Disp = *ArgStr[1].str.p_str ? 3 : 2;
         } else if (!as_strcasecmp(ArgStr[2].str.p_str, "SP")) {
             BAsmCode[0] = 0x9e;
             Disp        = 4;
@@ -406,8 +407,12 @@ static void DecodeCBEQ(Word Index) {
             OK = False;
         }
         if (OK) {
-            BAsmCode[Disp - 3] = 0x61;
-            BAsmCode[Disp - 2] = EvalStrIntExpression(&ArgStr[1], UInt8, &OK);
+            if (Disp == 2) {
+                BAsmCode[0] = 0x71;
+            } else {
+                BAsmCode[Disp - 3] = 0x61;
+                BAsmCode[Disp - 2] = EvalStrIntExpression(&ArgStr[1], UInt8, &OK);
+            }
             if (OK) {
                 AdrInt = EvalStrIntExpressionWithFlags(
                                  &ArgStr[3], AdrIntType, &OK, &Flags)
